@@ -1101,6 +1101,7 @@ theorem factorInner_unfold (C : FCtx n Ap Ai etree Lnz) (Ax : Array α) (a : Nat
   have h1 : 1 < Ap.size := by rw [C.tri.ap_size]; omega
   have hrep0 : 0 < (Array.replicate n (0 : α)).size := by simpa using hn
   have e01 : Ap.getD (0 + 1) 0 = Ap.getD 1 0 := rfl
+  have hn0 : (n == 0) = false := by rw [beq_eq_false_iff_ne]; omega
   unfold factorInner
   by_cases hlt : Ap.getD 0 0 < Ap.getD 1 0
   · have hb := C.tri.ap_bound 1 (by omega)
@@ -1109,12 +1110,12 @@ theorem factorInner_unfold (C : FCtx n Ap Ai etree Lnz) (Ax : Array α) (a : Nat
     have hval := hR.stored 0 hn (Ap.getD 0 0) (Nat.le_refl _) hlt
     have : Ai.getD (Ap.getD 0 0) 0 = 0 := by omega
     rw [this] at hval
-    simp only [hsizes, Bool.false_eq_true, ↓reduceIte, Bool.not_false, getE_getD _ _ _ 0 h0,
+    simp only [hsizes, hn0, Bool.false_eq_true, ↓reduceIte, Bool.not_false, getE_getD _ _ _ 0 h0,
       getE_getD _ _ _ 0 h1, bind, Except.bind, pure, Except.pure, hlt, getE_getD _ _ _ 0 hx,
       setE_ok _ _ _ _ hrep0, hval, set_eq_setIfInBounds, initState, List.range'_eq_map_range,
       List.foldlM_map]
   · have hz : a 0 0 = 0 := hR.zero 0 0 (by rintro ⟨t, h1, h2, _⟩; omega)
-    simp only [hsizes, Bool.false_eq_true, ↓reduceIte, Bool.not_false, getE_getD _ _ _ 0 h0,
+    simp only [hsizes, hn0, Bool.false_eq_true, ↓reduceIte, Bool.not_false, getE_getD _ _ _ 0 h0,
       getE_getD _ _ _ 0 h1, bind, Except.bind, pure, Except.pure, hlt, hz, replicate_setIfInBounds_self,
       initState, List.range'_eq_map_range, List.foldlM_map]
 
